@@ -83,7 +83,7 @@ class Fn:
             elif n.kind == 'ParmVarDecl' and n.d.get('id'):
                 if n.parent is decl:
                     self.params.append(n)
-            elif n.kind in ('BinaryOperator', 'CompoundAssignOperator') and (n.opcode == '=' or n.opcode.endswith('=') and n.opcode not in ('==', '!=', '<=', '>=')):
+            elif n.kind in ('BinaryOperator', 'CompoundAssignOperator') and ((n.opcode or '') == '=' or (n.opcode or '').endswith('=') and n.opcode not in ('==', '!=', '<=', '>=')):
                 self._write(n.inner[0])
             elif n.kind == 'UnaryOperator' and n.opcode in ('++', '--', '&'):
                 self._write(n.inner[0])
@@ -271,7 +271,10 @@ def _labels(s):
         else:
             if len(s.inner) != 2:
                 raise Skip('case range')
-            v = ev(s.inner[0], {'fn': None, 'geo': {}, 'params': {}})
+            try:
+                v = ev(s.inner[0], {'fn': None, 'geo': {}, 'params': {}})
+            except AttributeError:
+                v = None
             if v is None:
                 raise Skip('case value')
             vals.append(v)
@@ -393,6 +396,13 @@ def chains(W, f, exprs, depth=0):
 
 
 def r_host_shifts(P, rep, rule):
+    try:
+        _r_host_shifts(P, rep, rule)
+    except (AttributeError, TypeError, IndexError, KeyError, ValueError) as e:
+        rep.undecided(rule, 'codegen.c:gen_expr:host-shift', 'the host-shift analysis met a construct it cannot interpret: %s: %s' % (type(e).__name__, e))
+
+
+def _r_host_shifts(P, rep, rule):
     W = World(P)
     found = 0
     for fkey in sorted(W.fns):
